@@ -86,6 +86,14 @@ thread_local! {
 	static LAST_PANIC: RefCell<Option<(String, String)>> = RefCell::new(None);
 }
 
+static GLOBAL_LAST_PANIC: Mutex<Option<String>> = Mutex::new(None);
+
+fn worker_died() -> ! {
+	let m = GLOBAL_LAST_PANIC.lock().ok().and_then(|g| g.clone()).unwrap_or_default();
+	report(&format!("INCONCLUSIVE harness error: a worker thread died outside a case: {}", m));
+	std::process::exit(2);
+}
+
 pub fn install_panic_hook() {
 	std::panic::set_hook(Box::new(|info| {
 		let msg = if let Some(s) = info.payload().downcast_ref::<&str>() {
@@ -96,6 +104,9 @@ pub fn install_panic_hook() {
 			"<non-string panic>".to_string()
 		};
 		let loc = info.location().map(|l| format!("{}:{}", l.file(), l.line())).unwrap_or_default();
+		if let Ok(mut g) = GLOBAL_LAST_PANIC.try_lock() {
+			*g = Some(format!("{} at {}", msg.chars().take(600).collect::<String>(), loc));
+		}
 		LAST_PANIC.with(|p| *p.borrow_mut() = Some((msg, loc)));
 	}));
 }
@@ -631,7 +642,7 @@ impl Check {
 		let mut agg = PartStats::default();
 		agg.rule = spec.rule.to_string();
 		for h in handles {
-			let (st, failure) = h.join().expect("worker thread died");
+			let (st, failure) = h.join().unwrap_or_else(|_| worker_died());
 			agg.evaluations += st.evaluations;
 			agg.sub_evaluations += st.sub_evaluations;
 			agg.discards += st.discards;
@@ -750,7 +761,7 @@ impl Check {
 		agg.rule = rule.to_string();
 		agg.exhaustive = exhaustive;
 		for h in handles {
-			let (st, failure) = h.join().expect("worker thread died");
+			let (st, failure) = h.join().unwrap_or_else(|_| worker_died());
 			agg.evaluations += st.evaluations;
 			agg.sub_evaluations += st.sub_evaluations;
 			for (k, v) in st.labels {
